@@ -591,9 +591,12 @@ fn oracle_consist_step(k: &mut Chk, pre: &Consist, post: &Consist, req: f64, dt:
     let chem: f64 = post.loco_vec.iter().map(|l| match &l.loco_type { PowertrainType::BatteryElectricLoco(c) => c.res.state.pwr_out_chemical.value, _ => 0.0 }).sum();
     k.req("C01", "consist_power_rollup", close(s.pwr_fuel.value, fuel, scale) && close(s.pwr_reves.value, chem, scale) && close(s.pwr_out.value, sum, scale),
         || "consist pwr_fuel / pwr_reves / pwr_out differ from the sums over locomotives".into());
-    k.req("C01", "consist_energy_integrates", close(s.energy_fuel.value - s0.energy_fuel.value, s.pwr_fuel.value * dt, scale * dt)
-        && close(s.energy_res.value - s0.energy_res.value, s.pwr_reves.value * dt, scale * dt)
-        && close(s.energy_out.value - s0.energy_out.value, s.pwr_out.value * dt, scale * dt),
+    // float-sound: the difference of two accumulated energies carries the rounding of the accumulation (half an ulp of the
+    // accumulated value), however small the increment is
+    let acc = |e1: f64, e0: f64, inc: f64| close(e1 - e0, inc, scale * dt) || (e1 - e0 - inc).abs() <= 4.0 * f64::EPSILON * e1.abs().max(e0.abs());
+    k.req("C01", "consist_energy_integrates", acc(s.energy_fuel.value, s0.energy_fuel.value, s.pwr_fuel.value * dt)
+        && acc(s.energy_res.value, s0.energy_res.value, s.pwr_reves.value * dt)
+        && acc(s.energy_out.value, s0.energy_out.value, s.pwr_out.value * dt),
         || "consist energies do not advance by power*dt".into());
     let ef: f64 = post.loco_vec.iter().map(|l| match &l.loco_type { PowertrainType::ConventionalLoco(c) => c.fc.state.energy_fuel.value, _ => 0.0 }).sum();
     let ec: f64 = post.loco_vec.iter().map(|l| match &l.loco_type { PowertrainType::BatteryElectricLoco(c) => c.res.state.energy_out_chemical.value, _ => 0.0 }).sum();
